@@ -22,6 +22,12 @@ PARTITION_TABLE = {
         PURGE: ['0'],
         LOAD: ['PartialOrd::gt($Segment.size_bytes, {closure#0})', '1'],   # "some segment holds bytes" | empty last segment with start offset > 0
     },
+    'unsaved_messages_count': {
+        # counts what append buffered since the last save: flush_unsaved_buffer returns at once when it is 0, the save threshold compares it
+        APPEND: ['(phi{($u32 + 1) | 0} + self.unsaved_messages_count)', '0'],
+        PART + '::flush_unsaved_buffer': ['0'],
+        PURGE: ['0'],
+    },
 }
 SEGMENT_TABLE = {
     'current_offset': {
